@@ -8,7 +8,7 @@ import numpy as np
 
 from harness import core
 
-LAYOUTS = ["C", "F", "readonly", "view"]
+LAYOUTS = ["C", "F", "readonly", "view", "f32"]
 
 
 # ---------------------------------------------------------------------------------------
@@ -91,6 +91,8 @@ def lay(a, layout):
     """present the same values in a given memory layout"""
     if a is None or not isinstance(a, np.ndarray):
         return a
+    if layout == "f32":
+        return a.astype(np.float32) if a.dtype.kind == "f" else a.copy()
     if layout == "F":
         return np.asfortranarray(a.copy())
     if layout == "readonly":
@@ -342,8 +344,10 @@ def est_trace(tid, name, entry, hist, dataA, dataB, layout):
     rec = Rec()
     data = {"A": dataA, "B": dataB}
 
+    base_layout = "f32" if layout == "f32" else "C"      # single-precision inputs have their own registers
+
     def key(d, wy, size, op="fit"):
-        return "%s|%s|%s|%s|%s" % (name, d, wy or ymode == "required", size, op)
+        return "%s|%s|%s|%s|%s|%s" % (name, d, wy or ymode == "required", size, op, base_layout)
     # registers: fresh estimators for every step of the history (and their follow-up calls)
     seen = set()
     for st in hist:
@@ -352,11 +356,11 @@ def est_trace(tid, name, entry, hist, dataA, dataB, layout):
             continue
         seen.add(k)
         o = factory(st["n"])
-        fn, args = fit(o, data[st["d"]], st["y"], "C")
+        fn, args = fit(o, data[st["d"]], st["y"], base_layout)
         _, raised = rec.call("fit", fn, args, obj=o, key=key(*k), fresh=True)
         if not raised:
             for opn, op in ops:
-                fn2, a2 = op(o, data[st["d"]], "C")
+                fn2, a2 = op(o, data[st["d"]], base_layout)
                 rec.call(opn, fn2, a2, obj=o, key=key(*k, op=opn), fresh=True)
     # the history on one object
     o = factory(hist[0]["n"])
@@ -561,8 +565,8 @@ def run(tier):
         hs = short if not quick else [short[i] for i in rng.choice(len(short), size=12, replace=False)]
         hs = hs + [long_[i] for i in rng.choice(len(long_), size=(6 if quick else 60), replace=False)]
         for hi, h in enumerate(hs):
-            jobs.append(("est", name, h, LAYOUTS[(hi + ni) % 4], "e%d-%d" % (ni, hi)))
-    for li, layout in enumerate(LAYOUTS):
+            jobs.append(("est", name, h, LAYOUTS[(hi + ni) % len(LAYOUTS)], "e%d-%d" % (ni, hi)))
+    for li, layout in enumerate(LAYOUTS[:4]):
         jobs.append(("func", "", None, layout, "f%d" % li))
     parts = [(w, jobs[w::core.NCPU], core.seed()) for w in range(core.NCPU)]
     with mp.Pool(core.NCPU) as pool:
